@@ -13,10 +13,13 @@ ASSUMPTIONS = ["tolerance 100 L^2 eps cond_inf(L) kappa_V (1+|q|^2/2lambda) rela
 
 def run(ctx):
     ss = S.generate(ctx, 12 if ctx.quick else 100, 3 if ctx.quick else 6, max_e=6 if ctx.quick else 8,
-                    max_loops=3 if ctx.quick else 5, routings_per_graph=2, scales=(1, 1, 1, Fraction(1, 2 ** 33), 2 ** 30), decouple=0.3, special=("vacuum", "vacuum"))
+                    max_loops=3 if ctx.quick else 5, routings_per_graph=2, scales=(1, 1, 1, Fraction(1, 2 ** 33), 2 ** 30), decouple=0.3, special=("vacuum", "vacuum", "vacuum_massless"))
     ss += S.generate(ctx, 4 if ctx.quick else 25, 2, max_e=10, max_loops=4, routings_per_graph=2,
                      names=["banana4", "ladder3x", "mercedes", "sunrise", "sunrise_tadpole", "bubble_chain3"])
     ss += S.generate(ctx, 2 if ctx.quick else 10, 2, max_e=6, max_loops=5, routings_per_graph=2, names=["banana6"])
+    ss += S.generate(ctx, 1 if ctx.quick else 4, 2, max_e=8, max_loops=7, routings_per_graph=2, names=["banana8"], kinds=("uniform",))
+    ss += S.generate(ctx, 3 if ctx.quick else 12, 1, max_e=7, max_loops=4, routings_per_graph=8,
+                     names=["sunrise_tadpole", "bubble_chain3", "triangle_tadpole", "bubble_chain"], variant="permuted", kinds=("uniform",))
     # extremely small xi: L matrices with entries far outside [1e-50, 1e50] (any magnitude guard must still give the same momenta)
     ss += S.generate(ctx, 6 if ctx.quick else 30, 4, max_e=5, max_loops=3, routings_per_graph=1, kinds=("tiny_xi",),
                      names=["sunrise", "bubble", "double_triangle", "banana4", "triangle"])
